@@ -26,15 +26,20 @@ FinishOk == /\ l <= Len(Rec) /\ Rec[l].e = "finish"
             /\ Known(Rec[l].j) /\ Rec[l].r = canon[Rec[l].j]              \* History.Finish: r = canon[j]
             /\ hist' = (Rec[l].t :> (IF Rec[l].t \in DOMAIN hist THEN Append(hist[Rec[l].t], Rec[l].j) ELSE <<Rec[l].j>>)) @@ hist
             /\ l' = l + 1 /\ UNCHANGED <<canon, canonN, run, bad>>
+\* unique-id(): the one permitted source of variation - n calls within one compilation give n distinct valid identifiers
+UidsOk == /\ l <= Len(Rec) /\ Rec[l].e = "uids"
+          /\ Rec[l].distinct = Rec[l].n /\ Rec[l].valid = Rec[l].n
+          /\ l' = l + 1 /\ UNCHANGED <<canon, canonN, run, hist, bad>>
 Reject == /\ l <= Len(Rec)
-          /\ \/ (Rec[l].e = "finish" /\ ~(Rec[l].t \in DOMAIN run /\ run[Rec[l].t] = Rec[l].j /\ Known(Rec[l].j) /\ Rec[l].r = canon[Rec[l].j]))
+          /\ \/ (Rec[l].e = "uids" /\ ~(Rec[l].distinct = Rec[l].n /\ Rec[l].valid = Rec[l].n))
+             \/ (Rec[l].e = "finish" /\ ~(Rec[l].t \in DOMAIN run /\ run[Rec[l].t] = Rec[l].j /\ Known(Rec[l].j) /\ Rec[l].r = canon[Rec[l].j]))
              \/ (Rec[l].e = "baseline" /\ Known(Rec[l].j) /\ canon[Rec[l].j] # Rec[l].r)
           /\ PrintT(<<"REJECT", ToJson([line |-> l, id |-> Rec[l].id, job |-> Rec[l].j,
                                          \* explained by the named deviation D_identifier_order (same words, other order)?
                                          bydev |-> Known(Rec[l].j) /\ canonN[Rec[l].j] = Rec[l].rn,
                                          history |-> IF Rec[l].e = "finish" /\ Rec[l].t \in DOMAIN hist THEN hist[Rec[l].t] ELSE <<>>])>>)
           /\ bad' = bad + 1 /\ l' = l + 1 /\ UNCHANGED <<canon, canonN, run, hist>>
-Next == Baseline \/ Reset \/ Start \/ FinishOk \/ Reject
+Next == Baseline \/ Reset \/ Start \/ FinishOk \/ UidsOk \/ Reject
 Spec == Init /\ [][Next]_<<l, canon, canonN, run, hist, bad>>
 Consumed == (TLCGet("stats").diameter - 1 = Len(Rec)) \/ Print(<<"NOTE", "trace not consumed">>, FALSE)
 =============================================================================
